@@ -465,6 +465,34 @@ def family_sametext(rng, count):
     return out[:count]
 
 
+def family_idle(rng, count, contracts=False):
+    """idle() / after() measured from something other than the last entry: a state with an internal transition (fires
+    without re-entering its source) and idle / after guarded transitions out of it and out of its ancestors."""
+    out = []
+    while len(out) < count:
+        c = random_tree(rng, rng.randint(2, 5), allow_history=False, allow_final=False, p_orth=0.3)
+        n = c['n']
+        srcs = [s for s in range(1, n + 1) if c['kind'][s - 1] in TRANS_KINDS]
+        trans = []
+        for s in rng.sample(srcs, min(len(srcs), rng.randint(1, 2))):
+            trans.append(mk_trans(s, 0, 1, 0, 'none', 0, desc(incx=1)))
+            tgs = [t for t in range(1, n + 1) if wf_transition(c, s, t)]
+            for gk in rng.sample(['idle', 'after', 'idlep', 'afterp'], 2):
+                trans.append(mk_trans(s, rng.choice(tgs), rng.choice([0, 2]), 0, gk, rng.choice([1, 2])))
+        c['trans'] = [t for i, t in enumerate(trans) if t not in trans[:i]]
+        if contracts:
+            for t in c['trans']:
+                if rng.random() < 0.5:
+                    t['pre'], t['post'], t['inv'] = rng.choice([0, 1]), rng.choice([0, 1]), rng.choice([0, 1])
+            for s in range(1, n + 1):
+                if rng.random() < 0.4:
+                    c['spre'][s - 1], c['spost'][s - 1], c['sinv'][s - 1] = rng.choice([0, 1]), rng.choice([0, 1]), rng.choice([0, 1])
+        c['events'] = [1, 2]
+        if wf(c):
+            out.append(c)
+    return out
+
+
 def family_hist(rng, count, nmin=6, nmax=9, extra=6):
     """Larger charts with history states below orthogonal/compound ancestors; each transition has its
     own event.  Transitions into every history state from outside, out of its ancestors, and random ones."""
